@@ -55,6 +55,8 @@ func (m *TapeManager) GetWriter() (config.DriveWriterConfig, error) {
 		overwrite,
 	)
 	if err != nil {
+		m.physicalLock.Unlock()
+
 		return config.DriveWriterConfig{}, err
 	}
 
@@ -106,6 +108,8 @@ func (m *TapeManager) openOrReuseReader() error {
 
 		r, rr, err := OpenTapeReadOnly(m.drive)
 		if err != nil {
+			m.physicalLock.Unlock()
+
 			return err
 		}
 
